@@ -318,7 +318,9 @@ func (smf *SMFailed) UnmarshalXML(d *xml.Decoder, start xml.StartElement) error 
 				err = d.DecodeElement(&xnwf, &tt)
 				smf.StreamErrorGroup = &xnwf
 			default:
-				return errors.New("error is unknown")
+				// A condition that is not a stream-level one (XEP-0198 itself uses <item-not-found/>): the refusal
+				// is still a refusal, skip the element instead of failing the whole stream
+				err = d.Skip()
 			}
 			if err != nil {
 				return err
